@@ -737,6 +737,9 @@ func writeTo(conn net.Conn, p []byte, idleTimeout time.Duration) error {
 
 // WriteBuffersTo submits the packet. Keep synchronised with write!
 func writeBuffersTo(conn net.Conn, p net.Buffers, idleTimeout time.Duration) error {
+	// WriteTo consumes in place. Don't modify the original buffers.
+	p = append(net.Buffers(nil), p...)
+
 	if idleTimeout != 0 {
 		// Abandon timer to prevent waking up the system for no good reason.
 		// https://developer.apple.com/library/archive/documentation/Performance/Conceptual/EnergyGuide-iOS/MinimizeTimerUse.html
@@ -761,18 +764,7 @@ func writeBuffersTo(conn net.Conn, p net.Buffers, idleTimeout time.Duration) err
 			return err
 		}
 
-		// Don't modify the original buffers.
-		var remaining net.Buffers
-		offset := int(n) // size limited by packetMax
-		for i, buf := range p {
-			if len(buf) > offset {
-				remaining = append(remaining, buf[offset:])
-				remaining = append(remaining, p[i+1:]...)
-				break
-			}
-			offset -= len(buf)
-		}
-		p = remaining
+		// WriteTo advanced p beyond the n bytes already.
 	}
 }
 
